@@ -164,6 +164,9 @@ type Hooks struct {
 	// Track decides whether a branch atom is recorded as a fact (in addition
 	// to the automatic policy: atoms tested more than once in the function).
 	Track func(x *X, a Atom) bool
+	// Infeasible declares a branch outcome impossible by an axiom of the rule
+	// (stated in its evidence), e.g. "a database has at least one shard".
+	Infeasible func(a Atom) bool
 	// ResolvePhi forces path-sensitive resolution of additional phis.
 	ResolvePhi func(phi *ssa.Phi) bool
 	// Branch observes a decided branch (after feasibility pruning).
@@ -602,6 +605,15 @@ func (e *Explorer) branch(fr *Frame, s *State, iff *ssa.If, b *ssa.BasicBlock, w
 		}
 		if s.Facts.Contradicts(a.Neg()) {
 			fFeasible = false
+		}
+	}
+	if e.H.Infeasible != nil {
+		if tFeasible && fFeasible {
+			if e.H.Infeasible(a) {
+				tFeasible = false
+			} else if e.H.Infeasible(a.Neg()) {
+				fFeasible = false
+			}
 		}
 	}
 	if !tFeasible && !fFeasible {
